@@ -20,7 +20,14 @@ Executable (`partial def`), used per instance on real modules.  Core Lean only.
 namespace Naga.IRValid
 open Naga Naga.IR
 
+/-- operand handles of an expression kind outside the Core mirror, dumped as `Kind@h1,h2,…` (image query / load / sample) -/
+def otherOperands (n : String) : List Nat :=
+  match n.splitOn "@" with
+  | [_, hs] => (hs.splitOn ",").filterMap String.toNat?
+  | _ => []
+
 def operands : Expr → List Nat
+  | .other n => otherOperands n
   | .compose _ hs => hs
   | .access b i => [b, i]
   | .accessIdx b _ => [b]
